@@ -117,7 +117,7 @@ def finish(res, tier, t0, level="other", explanation="", trusted_base=(), assump
             known_hit.append((o, known_keys[full]))
         else:
             violations.append(o)
-    evdir = os.path.join(VERIF, "evidence")
+    evdir = os.environ.get("VERIF_EVIDENCE_DIR") or os.path.join(VERIF, "evidence")
     os.makedirs(evdir, exist_ok=True)
     for fn in os.listdir(evdir):
         if fn.startswith(prop + ".violation-"):
